@@ -274,7 +274,7 @@ func (my *cacheImpl) getFutureStatus(future *Future) int {
 
 		if updateTime.IsZero() || past < expire {
 			return kFutureGood
-		} else if past < 2*expire {
+		} else if past-expire < expire { // 不写成 past < 2*expire: expire >= 2^62ns 时 2*expire 会溢出为负
 			return kFutureExpired
 		} else {
 			return kFutureRotted
